@@ -18,8 +18,8 @@ claim("C16",
       "DESIGN.md C14-C17")
 
 claim("C17",
-      "ZADD (all NX/XX/GT/LT/CH combinations), ZINCRBY, ZCARD, ZSCORE, ZMSCORE, ZREM, ZDIFF and ZDIFFSTORE are executed symbolically through the real dispatcher from arbitrary sorted sets (scores are symbolic IEEE doubles incl. infinities and ties) and compared with a reference scored map; ZDIFF(STORE) operands must stay untouched and the destination must not share the stored object. The remaining sorted-set commands are not yet covered (listed in the evidence as outside the claim).",
-      "Bounds: sorted sets of <= 2 members (3 thorough), integer score arguments in -4..4, one command per step. Known finding: ZADD without CH counts changed members (pinned by the repository's tests).",
+      "All 25 sorted-set commands are executed symbolically through the real dispatcher from arbitrary sorted sets (scores are symbolic IEEE doubles incl. infinities and ties) and compared, reply and post-state, with a reference map member -> score ordered by (score, member): ZADD (every NX/XX/GT/LT/CH combination, two pairs, INCR), ZINCRBY, ZCARD, ZSCORE, ZMSCORE, ZREM, ZCOUNT, ZLEXCOUNT, ZRANK/ZREVRANK, ZPOPMIN/ZPOPMAX, ZMPOP, ZREMRANGEBYSCORE/BYRANK/BYLEX, ZRANGE and ZRANGESTORE (BYSCORE, BYLEX, REV, LIMIT, WITHSCORES), ZUNION/ZINTER/ZDIFF and their STORE forms with WEIGHTS and AGGREGATE (operands untouched, destination replaced and never sharing a source's object), ZRANDMEMBER; a wrong-typed key must make the command fail and stay unchanged.",
+      "Bounds: sorted sets of <= 2 members (3 thorough), two operand keys, bounds/weights/limits from small menus, one command per step; conventions the repository documents and pins (LIMIT window over the whole set, plain BYLEX bounds) are taken as given. Known finding: ZADD without CH counts changed members (pinned by the repository's tests). Outside the claim: see bounds/C17.txt.",
       "DESIGN.md C14-C17")
 
 claim("C04",
